@@ -161,7 +161,8 @@ PROPS = {
         "level_text": "Generated schedules over {lease won, submit (valid / wrong version / count mismatch / no services / hostname clash / valid-after-update), chain fetch completes ok/error, version updated, lease removed, deployment closed, shutdown} of length <= 10 drive the real manager. After each step a no-op message accepted by the manager loop proves the step was processed; then no submission has two replies, every submission is answered once nothing it could wait for is outstanding (and always after stop), a reply is an acceptance iff a lease is held, chain data is fetched, the hash equals the expected version and the manifest validates (this is also the C10 version gate), and every ManifestReceived on the bus names a held lease, carries fetched data and the latest validated manifest. A submission handed to a stopped manager is still answered.",
         "level_note": "Trusted: the barrier (single goroutine loop, unbuffered hand-off); 20 s bounded waits as hang detection; SimpleHostnames as hostname service.",
         "assumptions": ["one deployment per schedule; the 5-minute linger timer and the manifest watchdog are not exercised (no clock injection without a source hook)"],
-        "units": [{"pkg": "provider/manifest", "run": "^TestVerif_C20$", "checks": {Q: 800, T: 8000}, "shards": {Q: 4, T: 16}, "race": {Q: False, T: True}, "timeout": {Q: 900, T: 3000}, "shrinktime": "40s"}],
+        "units": [{"pkg": "provider/manifest", "run": "^TestVerif_C20_Service$", "checks": {Q: 300, T: 5000}, "shards": {Q: 2, T: 16}, "race": {Q: False, T: True}, "timeout": {Q: 900, T: 3000}, "shrinktime": "40s"},
+                  {"pkg": "provider/manifest", "run": "^TestVerif_C20$", "checks": {Q: 800, T: 8000}, "shards": {Q: 4, T: 16}, "race": {Q: False, T: True}, "timeout": {Q: 900, T: 3000}, "shrinktime": "40s"}],
     },
     "C15": {
         "level": "exploration",
